@@ -13,6 +13,10 @@ THEOREMS = [
     "VK.Good_suffix",
     "VK.C01_stv_round_lists_disjoint",
     "VK.C01_irv_one_winner",
+    "VK.noFuel_stvStep",
+    "VK.stvStep_decreases",
+    "VK.stvLoop_noFuel",
+    "VK.C01_stv_terminates",
     "VK.C01_topM_count_partition",
     "VK.C01_topM_no_tiebreak_no_boundary_tie",
     "VK.C01_plurality",
